@@ -184,12 +184,7 @@ func (i UInt) ExponentiateUInt(other UInt) UInt {
 	if other <= 0 {
 		return 1
 	}
-	result := i
-	var j UInt
-	for j = 2; j <= other; j++ {
-		result *= i
-	}
-	return result
+	return StrictIntExponentiate(i, other)
 }
 
 func (i UInt) Subtract(other Value) (UInt, Value) {
